@@ -193,3 +193,5 @@ def run(cx):
     with cx.ob("C15.7", "R-WRITERS", "one layer out: the configured maximum reaches the codecs as configured - Config.max_frame_size is never written after the Config was built and its accessor is a pure projection") as ob:
         check_config_immutable(ob, prog, ["max_frame_size"])
         check_pure_accessor(ob, prog, "anemo::config::Config::max_frame_size", "max_frame_size")
+        check_derived(ob, prog, "anemo::config::Config", "core::default::Default")          # unset really means None
+        check_builder_setters(ob, prog, "anemo::network::Builder", {"config": ("config", "config")})
